@@ -14,7 +14,7 @@ func init() {
 		Explanation: "Structural necessary conditions of 'token creation and login never escalate privilege', as guard-cuts on every path of TokenStore.handleCreateCommon to the token-creating call (ts.create) and on the helpers it relies on: " +
 			"(1) no parent / batch parent / use-limited parent refusals; (2) cross-namespace creation needs sudo and may not name root; (3) a caller-chosen ID, the no_parent orphaning and a period are stored only behind the sudo test (and root namespace for IDs); orphaning otherwise only from the role's orphan flag or the create-orphan endpoint argument; writers of these TokenEntry fields are tabled; " +
 			"(4) the final policy list comes only from resolveTokenPolicies, root in it requires a root parent and a non-batch type, and no store to the policy list is reachable after that check; " +
-			"(5) resolveTokenPolicies reaches its final policy set only through the role-with-lists arm, the cross-namespace arm, parent inheritance, the subset test or sudo, checks role allow/deny lists and rejects non-assignable policies on every returning path; " +
+			"(5) resolveTokenPolicies reaches its final policy set only through the role-with-lists arm, the cross-namespace arm, parent inheritance, the subset test or sudo, checks role allow/deny lists and rejects non-assignable policies on every returning path; the role arm hands its list on only after, for each of the role's four lists separately, that list was found empty or the loop testing every policy against it ran to its end (or, for the allowed lists, the role's own allowed list was adopted); " +
 			"(6) non-expiring root only from a non-expiring root parent; TTLs come out of CalculateTTL or the explicit maximum; " +
 			"(7) login token creation (LoginCreateToken, Core.RegisterAuth) rejects root and non-assignable policies over token+identity policies before registering and refuses non-root zero TTL; " +
 			"(8) the three create endpoints differ only in their constant orphan/role arguments.",
@@ -280,6 +280,50 @@ func runC07(c *eng.Ctx, thorough bool) {
 		} {
 			c.NilResultOnEdges(f, es.desc, eng.CondEdgesDeep(f, es.pat, es.val), 1, "policy list")
 		}
+		// role arm: the list the role arm hands on (policies = finalPolicies) was
+		// checked against each of the role's four lists: for every list the
+		// hand-over is reachable only across an edge on which that list is empty,
+		// or across the exit of the loop that tests every element against it (for
+		// the allowed lists also: the role's own allowed list was adopted).
+		c.Clause("R2", "C07.5")
+		isFinal := func(v ssa.Value) bool { p, ok := v.(*ssa.Phi); return ok && p.Comment == "finalPolicies" }
+		handOver := eng.PhiEdges(f, "policies", isFinal)
+		if c.Floor(f, "role arm hand-over (policies = finalPolicies)", len(handOver), 1) {
+			// the true edges of the membership tests whose haystack (first argument) is built from the role's list
+			member := func(callee, list string) []eng.Edge {
+				return c07CallCondEdges(f, callee, `\brole\.`+list+`\b`, true)
+			}
+			disIn := member(`^slices\.Contains\[`, "DisallowedPolicies")
+			disGlob := member(`strutil\.StrListContainsGlob$`, "DisallowedPoliciesGlob")
+			// disallowed loop: every iteration tests the element against the list
+			disLoop := func(tests []eng.Edge) []eng.Edge { return c07LoopExits(f, nil, eng.EdgeIfs(tests)) }
+			// allowed loop: the next element is reached only across an allowing edge
+			allowing := append(member(`^slices\.Contains\[`, "AllowedPolicies"), member(`strutil\.StrListContainsGlob$`, "AllowedPoliciesGlob")...)
+			var allowLoop []eng.Edge
+			if len(allowing) > 0 {
+				allowLoop = c07LoopExits(f, allowing, nil)
+			}
+			adopt := eng.GD(f, `^\(?len\(φfinalPolicies\{.*\}\)\)? == 0$`, true)
+			c.Floor(f, "per-element tests against the role's disallowed lists", len(disIn)+len(disGlob), 2)
+			c.Floor(f, "per-element tests against the role's allowed lists", len(allowing), 2)
+			for _, l := range []struct {
+				list  string
+				exits []eng.Edge
+				extra []eng.Guard
+			}{
+				{"DisallowedPolicies", disLoop(disIn), nil},
+				{"DisallowedPoliciesGlob", disLoop(disGlob), nil},
+				{"AllowedPolicies", allowLoop, []eng.Guard{adopt}},
+				{"AllowedPoliciesGlob", allowLoop, []eng.Guard{adopt}},
+			} {
+				gs := []eng.Guard{
+					eng.G(f, `^0 < len\(role\.`+l.list+`\)$`, false),
+					{Desc: "exit of the loop testing every policy against role." + l.list, Edges: l.exits},
+				}
+				gs = append(gs, l.extra...)
+				c.CutEdges(f, "role arm hands on its policy list (role."+l.list+")", handOver, eng.Or(gs...))
+			}
+		}
 		// every returned list went through the non-assignable loop
 		c.Clause("R3", "C07.5")
 		hdr := eng.EdgeIfs(eng.CondEdges(f, `rangeindex.*len\(φfinalPolicies\{.*StrListDelete`, true))
@@ -380,6 +424,103 @@ func runC07(c *eng.Ctx, thorough bool) {
 		cc := instrsOf(eng.Calls(f, `handleCreateCommon$`))
 		c.Cut(f, "handleCreateCommon(role)", cc, eng.G(f, `tokenStoreRole\(\)#0 == nil$`, false), nil)
 	}
+}
+
+// c07CallCondEdges: the edges of the branches of f that test the result of a
+// call whose callee matches calleePat and whose first argument (deep
+// rendering) matches arg0Pat, on which the call's result has the value want.
+func c07CallCondEdges(f *ssa.Function, calleePat, arg0Pat string, want bool) []eng.Edge {
+	var out []eng.Edge
+	for _, b := range f.Blocks {
+		ifi := eng.IfOf(b)
+		if ifi == nil {
+			continue
+		}
+		nc := eng.Normalize(ifi.Cond)
+		cl, ok := nc.Val.(*ssa.Call)
+		if !ok || len(cl.Call.Args) == 0 {
+			continue
+		}
+		if ok, _ := regexpMatch(calleePat, eng.CalleeName(&cl.Call)); !ok {
+			continue
+		}
+		if ok, _ := regexpMatch(arg0Pat, eng.ExprDeep(cl.Call.Args[0])); !ok {
+			continue
+		}
+		succ := 1
+		if nc.Pol == want {
+			succ = 0
+		}
+		out = append(out, eng.Edge{From: b, Succ: succ})
+	}
+	return out
+}
+
+// c07Loop is a loop header of a function: the branch that decides between one
+// more iteration (body) and leaving the loop (exit).
+type c07Loop struct {
+	If         *ssa.If
+	Body, Exit eng.Edge
+}
+
+// c07Loops lists the loop headers of f (blocks the SSA builder labels *.loop
+// that end in a branch of which exactly one successor lies in the natural
+// loop of the header).
+func c07Loops(f *ssa.Function) []c07Loop {
+	var out []c07Loop
+	for _, b := range f.Blocks {
+		ifi := eng.IfOf(b)
+		if ifi == nil || !strings.HasSuffix(b.Comment, ".loop") {
+			continue
+		}
+		// natural loop: the successor is dominated by the header and leads back
+		// to it through blocks the header dominates
+		back := func(si int) bool {
+			seen := map[*ssa.BasicBlock]bool{}
+			stack := []*ssa.BasicBlock{b.Succs[si]}
+			for len(stack) > 0 {
+				x := stack[len(stack)-1]
+				stack = stack[:len(stack)-1]
+				if x == b {
+					return true
+				}
+				if seen[x] || !b.Dominates(x) {
+					continue
+				}
+				seen[x] = true
+				stack = append(stack, x.Succs...)
+			}
+			return false
+		}
+		bi := 0 // the successor that is the loop body: the one that leads back to the header
+		switch b0, b1 := back(0), back(1); {
+		case b0 && !b1:
+		case b1 && !b0:
+			bi = 1
+		default:
+			continue
+		}
+		out = append(out, c07Loop{ifi, eng.Edge{From: b, Succ: bi}, eng.Edge{From: b, Succ: 1 - bi}})
+	}
+	return out
+}
+
+// c07LoopExits: the exit edges of the loops of f in which the next iteration
+// is reachable from the loop body only across one of the `across` edges or
+// through one of the `through` instructions (every iteration performs the
+// test).
+func c07LoopExits(f *ssa.Function, across []eng.Edge, through []ssa.Instruction) []eng.Edge {
+	var out []eng.Edge
+	if len(across) == 0 && len(through) == 0 {
+		return nil
+	}
+	for _, l := range c07Loops(f) {
+		again := func(in ssa.Instruction) bool { return in == ssa.Instruction(l.If) }
+		if eng.Reach(eng.Query{Fn: f, StartEdges: []eng.Edge{l.Body}, Blocked: across, Barriers: through, Target: again}) == nil {
+			out = append(out, l.Exit)
+		}
+	}
+	return out
 }
 
 func teRootNearest(f *ssa.Function) []eng.Edge {
